@@ -239,12 +239,28 @@ impl G {
             let es: Vec<J> = (0..n).map(|_| self.entry(depth - 1, true)).collect();
             ("none", 0, json!({"t":"map","es":dedup_entries(es)}))
         } else if roll < 72 {
-            // plain list, possibly mixed classes
+            // plain list, possibly mixed classes; a member often shares kind family and case flag
+            // with its predecessor so that batches of two and more are common
             let n = 1 + self.r.below(4);
-            let mut vs = vec![];
+            let mut vs: Vec<J> = vec![];
             for _ in 0..n {
                 let class = *self.r.pick(&["str", "str", "str", "num", "bool", "null"]);
-                vs.push(self.scalar(class, "none"));
+                let mut v = self.scalar(class, "none");
+                if let Some(prev) = vs.last() {
+                    if prev["t"] == "pat" && v["t"] == "pat" && self.r.chance(1, 2) {
+                        v["ic"] = prev["ic"].clone();
+                        if prev["k"] == "regex" && v["k"] != "regex" && self.r.chance(1, 2) {
+                            let mut p2 = self.pattern(true);
+                            for _ in 0..6 {
+                                if p2["k"] == "regex" { break; }
+                                p2 = self.pattern(true);
+                            }
+                            p2["ic"] = prev["ic"].clone();
+                            v = p2;
+                        }
+                    }
+                }
+                vs.push(v);
             }
             if depth > 0 && self.r.chance(1, 6) {
                 vs.push(json!({"t":"map","es":[self.entry(depth - 1, true)]}));
@@ -542,7 +558,61 @@ impl G {
         if self.r.chance(1, 3) {
             insert_path(&mut root, "zz", s_node("unrelated"));
         }
-        obj_from(root)
+        let mut d = obj_from(root);
+        // fields tested by a nested mapping: sometimes an ARRAY of variants of the object (an
+        // element lacking a key before the one that has it, non-object elements in between)
+        let nested: Vec<String> = hints.iter().filter(|(_, hs)| hs.is_empty()).map(|(p, _)| p.clone()).collect();
+        for p in nested {
+            if self.r.chance(1, 3) {
+                arrayify(self, &mut d, &p);
+            }
+        }
+        d
+    }
+}
+
+fn arrayify(g: &mut G, doc: &mut J, path: &str) {
+    let (head, rest) = match path.split_once('.') {
+        Some((h, r)) => (h, Some(r)),
+        None => (path, None),
+    };
+    let kv = match doc.get_mut("kv").and_then(|k| k.as_array_mut()) {
+        Some(kv) => kv,
+        None => return,
+    };
+    for p in kv.iter_mut() {
+        if str_of(&p[0]).map(|k| k == head).unwrap_or(false) {
+            match rest {
+                Some(r) => arrayify(g, &mut p[1], r),
+                None => {
+                    if p[1]["t"] != "O" {
+                        return;
+                    }
+                    let full = p[1].clone();
+                    let mut elems = vec![];
+                    let n = 1 + g.r.below(3);
+                    for _ in 0..n {
+                        let mut e = full.clone();
+                        if let Some(ekv) = e.get_mut("kv").and_then(|k| k.as_array_mut()) {
+                            if !ekv.is_empty() && g.r.chance(1, 2) {
+                                let i = g.r.below(ekv.len());
+                                ekv.remove(i);
+                            }
+                        }
+                        elems.push(e);
+                    }
+                    if g.r.chance(1, 2) {
+                        elems.push(full.clone());
+                    }
+                    if g.r.chance(1, 4) {
+                        let pos = g.r.below(elems.len() + 1);
+                        elems.insert(pos, s_node("x"));
+                    }
+                    p[1] = json!({"t":"A","vs":elems});
+                }
+            }
+            return;
+        }
     }
 }
 
@@ -1108,7 +1178,82 @@ pub fn permute_src(g: &mut G, src: &J) -> J {
     json!({"cond":cond,"ids":ids})
 }
 
+/// C05: a random condition tree rendered to TEXT with random redundant parentheses and extra
+/// spaces; identifiers include words that begin with keyword letters
+fn cond_tree(g: &mut G, depth: usize) -> J {
+    let names = ["A", "B", "C", "android", "order", "nothing", "allow", "offline", "notable", "orbit"];
+    if depth == 0 || g.r.chance(1, 4) {
+        return match g.r.below(12) {
+            0 => json!({"t":"all","n":cps(*g.r.pick(&names))}),
+            1 => json!({"t":"of","n":cps(*g.r.pick(&names)),"c":g.r.below(3)}),
+            2 => json!({"t":"cmp","op":*g.r.pick(&["eq","gt","ge","lt","le"]),
+                        "l":{"t":"cast","k":"int","f":cps("f")},"r":{"t":"const","n":int_node(&format!("{}", g.r.below(3)))}}),
+            3 => json!({"t":"cmp","op":*g.r.pick(&["eq","gt","lt"]),
+                        "l":{"t":"const","n":flt_node("1.5")},"r":{"t":"cast","k":"flt","f":cps("g")}}),
+            _ => json!({"t":"id","n":cps(*g.r.pick(&names))}),
+        };
+    }
+    let t = match g.r.below(10) {
+        0..=3 => json!({"t":"and","l":cond_tree(g, depth - 1),"r":cond_tree(g, depth - 1)}),
+        4..=7 => json!({"t":"or","l":cond_tree(g, depth - 1),"r":cond_tree(g, depth - 1)}),
+        _ => json!({"t":"not","e":cond_tree(g, depth - 1)}),
+    };
+    if g.r.chance(1, 5) {
+        json!({"t":"par","e":t})
+    } else {
+        t
+    }
+}
+
+fn respace(g: &mut G, text: &str) -> String {
+    // extra U+0020 between lexemes: after a space, and around parentheses that are not part of a
+    // keyword( lexeme
+    let mut out = String::new();
+    let cs: Vec<char> = text.chars().collect();
+    for (i, c) in cs.iter().enumerate() {
+        out.push(*c);
+        if *c == ' ' && g.r.chance(1, 3) {
+            out.push_str(&" ".repeat(1 + g.r.below(2)));
+        }
+        if *c == ')' && g.r.chance(1, 4) {
+            out.push(' ');
+        }
+        if *c == '(' && g.r.chance(1, 4) {
+            // only after a free-standing parenthesis (not all( of( int( flt( str( )
+            let prev_alpha = i > 0 && cs[i - 1].is_alphanumeric();
+            if !prev_alpha {
+                out.push(' ');
+            }
+        }
+    }
+    if g.r.chance(1, 4) {
+        out.insert(0, ' ');
+    }
+    if g.r.chance(1, 4) {
+        out.push(' ');
+    }
+    out
+}
+
 pub fn gen_cases(topic: &str, seed: u64, n: usize, path: &str) -> Result<(), String> {
+    if topic == "cond" {
+        let mut g = G::new(seed ^ 0xC05D);
+        let mut w = BufWriter::new(File::create(path).map_err(|e| e.to_string())?);
+        for _ in 0..n {
+            let depth = 2 + g.r.below(3);
+            let tree = cond_tree(&mut g, depth);
+            let text = match crate::render::cond_text(&tree) {
+                Ok(t) => respace(&mut g, &t),
+                Err(_) => continue,
+            };
+            let c = json!({"topic":"cond","oracle":true,"wt":false,"bodies_ok":true,
+                   "src":{"cond":{"t":"text","s":cps(&text)},"ids":atom_ids()},"reftree":tree,"docs":atom_docs(&mut g),
+                   "plan":{"tri":false,"sws":[[]]}});
+            writeln!(w, "{}", c).map_err(|e| e.to_string())?;
+        }
+        w.flush().map_err(|e| e.to_string())?;
+        return Ok(());
+    }
     if topic == "fuzz" || topic == "condfuzz" || topic == "identfuzz" {
         let mut g = G::new(seed ^ 0xF022);
         let mut w = BufWriter::new(File::create(path).map_err(|e| e.to_string())?);
@@ -1374,7 +1519,21 @@ pub fn gen_cases(topic: &str, seed: u64, n: usize, path: &str) -> Result<(), Str
             // C07: one field, long strings, multi-byte characters, lists of 1-5 patterns
             "str" => {
                 let n = 1 + g.r.below(5);
-                let pats: Vec<J> = (0..n).map(|_| g.pattern(true)).collect();
+                // members of one list usually share a batch class (kind family and case flag), so
+                // that Aho-Corasick batches and RegexSets of every flavour are common
+                let fam_ic = g.r.chance(1, 2);
+                let fam_regex = g.r.chance(1, 3);
+                let pats: Vec<J> = (0..n).map(|_| {
+                    let mut p = g.pattern(true);
+                    if g.r.chance(2, 3) {
+                        for _ in 0..12 {
+                            if (p["k"] == "regex") == fam_regex && p["k"] != "any" { break; }
+                            p = g.pattern(true);
+                        }
+                        p["ic"] = json!(fam_ic);
+                    }
+                    p
+                }).collect();
                 let v = if n == 1 && g.r.chance(1, 2) { pats[0].clone() } else { json!({"t":"list","vs":pats.clone()}) };
                 let src = json!({"cond":{"t":"id","n":cps("A")},"ids":[[cps("A"),{"t":"map","es":[{"m":"none","c":0,"f":cps("f"),"v":v}]}]]});
                 let mut docs = vec![];
